@@ -5,6 +5,10 @@ sys.path.insert(0, '/verif')
 from harness import common, engine
 common.prime()
 DESCR = {
+ "C07-D3-documented-parameters-come-first": "when the docstring documents only some parameters, or documents them out of signature order, the parsed interface lists the documented ones first (in docstring order) and the rest after them - not in source order (kernel-checked: Py.documented_first_witness, Py.irMerge_keys)",
+ "C07-D3-undocumented-kwargs-dropped": "an undocumented **kwargs parameter is not listed at all",
+ "C07-negative-default-under-a-documented-str-type-left-as-ast": "a negative numeric signature default of a parameter whose docstring declares a str type is left as an unevaluated ast.UnaryOp object in the description",
+ "C01-untyped-entry": "numpydoc/google docstring entries without a type are not parsed as entries (see C01): the parameter's prose/type is lost or attached elsewhere",
  "C06-required-parameter-emitted-with-none-default": "a parameter that has no default in the description is emitted as `name=None`: the executed function does not require it (inspect.signature shows a default the description does not have)",
  "C06-black-normalises-docstring-indentation": "written through emit.file with black, the docstring constant of the definition is re-indented and trimmed by black, so the file's syntax tree differs from the emitted one in that string (the docstring as seen by inspect.getdoc is the same)",
  "C04-scalar-with-none-default": "a scalar option whose default is None is read back with the zero value of its type",
